@@ -50,12 +50,19 @@ def vectors_round(ctx, rng, n, em):
             ctx.violation("v%s:valid-vector-rejected" % ver, "accepted vector rejected", s, "accepted", e, replay=rp)
             continue
         try:
+            pre = ""
+            if rng.random() < 0.35:
+                # other accessors first, in random order: what is emitted must not depend on earlier calls
+                pre = "".join(rng.choice("nsvrcjK") for _ in range(rng.randrange(1, 4)))
+                for ch in pre:
+                    core.obs_field(ver, o, ch)
+                rp = {"kind": "vector", "ver": ver, "s": s, "pre": pre}
             c = o.clean_vector()
             r = o.rh_vector()
         except Exception as ex:  # noqa
             ctx.violation("v%s:accessor-raised" % ver, "clean_vector()/rh_vector() raised", s, None, repr(ex), replay=rp)
             continue
-        k = check_emitted(ctx, ver, s, c, "clean_vector()", rp)
+        k = check_emitted(ctx, ver, s, c, "clean_vector()" + (" after other accessor calls" if pre else ""), rp)
         if "/" not in r:
             ctx.violation("v%s:rh-has-no-slash" % ver, "rh_vector() has no '/'", s, None, r, replay=rp)
         else:
@@ -71,9 +78,10 @@ def interactive_round(ctx, rng, n, em):
         iver = rng.choice(["2", "3.0", "3.1", "4"])
         allm = rng.random() < 0.6
         ans = inter.rand_answers(iver, allm, rng, complete=True)
-        res = inter.ask(iver, allm, ans)
+        sp = rng.randrange(2)
+        res = inter.ask(iver, allm, ans, spelling=sp)
         ctx.count()
-        rp = {"kind": "interactive", "iver": iver, "all": allm, "answers": ans}
+        rp = {"kind": "interactive", "iver": iver, "all": allm, "answers": ans, "spelling": sp}
         if res["outcome"] != "result":
             continue
         k = check_emitted(ctx, iver[0], rp, res["vector"], "ask_interactively() result", rp)
@@ -114,10 +122,12 @@ def replay(data):
         o, e = obs.construct(r["ver"], r["s"])
         if o is None:
             return False, "rejected: %s" % e
+        for ch in r.get("pre", ""):
+            core.obs_field(r["ver"], o, ch)
         outs = [o.clean_vector(), o.rh_vector().split("/", 1)[1]]
         ver = r["ver"]
     else:
-        res = inter.ask(r["iver"], r["all"], r["answers"])
+        res = inter.ask(r["iver"], r["all"], r["answers"], spelling=r.get("spelling", 0))
         outs = [res["vector"]]
         ver = r["iver"][0]
     msgs = []
